@@ -96,7 +96,15 @@ func run(c *core.Ctx) {
 		nv := fsreplay.NVariants(s)
 		n := len(s.Path)
 		addrLast := n > 0 && isAddrLeaf(s.Path[n-1])
+		spellLast := n > 0 && isSpelling(s.Path[n-1])
 		switch {
+		case spellLast && s.Exp == "reject" && !(n == 2 && s.Path[0] == "B" && s.Abs) && !c.Thorough():
+			// quick: every spelling of the peer address is replayed under the base directory;
+			// under any other parent (refused whatever the leaf) two seeded members suffice
+			off := rng.Intn(nv)
+			for v := 0; v < 2 && v < nv; v++ {
+				jobs = append(jobs, fsreplay.Job{C: fsreplay.Concrete{Scn: s, Variant: off + v*3}})
+			}
 		case n <= 2 || s.Exp != "reject":
 			// every concretisation of every class
 			for v := 0; v < nv; v++ {
@@ -180,9 +188,17 @@ func run(c *core.Ctx) {
 	c.Set("rule", "behaviours = every (absolute|relative) x component-class sequence of length <= MaxLen x connection family x network fault, and every (object kind x client result) on the server side, enumerated by TLC from Gen_FSAuth with the expected verdict; each is one REAL client handshake (methods [FS]) against a REAL server handshake over TCP loopback with a frame-aware relay on the client's connection; classes expand to concrete strings (all variants for paths of <= 2 components and for every accepted path, a seeded variant otherwise; quick: IPv6 twins of refused 3-component paths without a final address leaf are not replayed; thorough: two variants of every 3-component path and a seeded quarter of the 4-component paths); plus every single-character substitution / deletion / insertion / duplication (quick: seeded sample per position) of every accepted path, classified back into the model's classes for the expected verdict; non-trivial = path of >= 2 components or a server-side case")
 }
 
+func isSpelling(c string) bool {
+	switch c {
+	case "LaMap", "LaAlt", "LaZone", "LaOdd":
+		return true
+	}
+	return false
+}
+
 func isAddrLeaf(c string) bool {
 	switch c {
-	case "La4", "La6", "La4port", "La4ip", "Lhost":
+	case "La4", "La6", "La4port", "La4ip", "Lhost", "LaMap", "LaAlt", "LaZone", "LaOdd":
 		return true
 	}
 	return false
